@@ -393,6 +393,95 @@ func c05(c *core.Ctx) {
 	// C05.dirtyflag: a change of a persisted attribute must reach the file: the record is queued for the
 	// writer only when one of the change flags SaveFunction tests is set.
 	rDF := c.Rule("C05.dirtyflag", "every method of the record that assigns a field of the persisted model (the struct that ConvertToByte encodes) also sets one of the change flags SaveFunction tests before it queues a record for the writer, on every path through that assignment: a change made without a flag is visible in memory, reported as 'same' by Save, never written, and gone after close and reload", 20)
+	dirtyFlagRule(c, rDF, "")
+
+	rU := c.Rule("C05.units", "created/updated/expiry are stored as UnixNano by their setters and leave the gateway through time.Unix(0, x)", 5)
+	for _, k := range []string{"SetCreatedAt", "SetModifiedAt", "SetExpirationTime"} {
+		f := c.Fn(pkgTreasure + ".treasure." + k)
+		ok := false
+		core.Calls(f.Decl.Body, false, func(call *ast.CallExpr) {
+			if core.IsCallTo(f.Info(), call, "time.Time.UnixNano") {
+				ok = true
+			}
+		})
+		rU.Check(ok, f.Key, f.Decl.Pos(), "UnixNano", k+" does not store nanoseconds")
+	}
+	unitRule(c, rU, func(info *types.Info, body ast.Node, e ast.Expr) bool {
+		if call, ok := stripConv(info, e).(*ast.CallExpr); ok {
+			if f := core.Callee(info, call); f != nil {
+				switch f.Name() {
+				case "GetCreatedAt", "GetModifiedAt", "GetExpirationTime", "GetDeletedAt":
+					return f.Pkg() != nil && core.Short(f.Pkg().Path()) == pkgTreasure
+				}
+			}
+		}
+		return false
+	}, "metadata time")
+}
+
+// hasReturn reports whether the body contains a return statement outside function literals.
+func hasReturn(body *ast.BlockStmt) bool {
+	found := false
+	ast.Inspect(body, func(x ast.Node) bool {
+		switch x.(type) {
+		case *ast.FuncLit:
+			return false
+		case *ast.ReturnStmt:
+			found = true
+		}
+		return true
+	})
+	return found
+}
+
+// reachesFlag: for bodies that fall off their end, whether some flag-setting node follows loc on every
+// path is approximated by: a flag-setting node is reachable and no return exists (straight-line setter).
+func reachesFlag(fl *core.Flow, loc core.Loc, pred func(ast.Node) bool) bool {
+	r, _ := fl.CanReach(loc, nil, nil, pred)
+	return r
+}
+
+// dirtyFlagExempt: record methods that assign fields of the persisted model without changing an
+// attribute a client set (one named method each, with the reason).
+var dirtyFlagExempt = map[string]string{
+	"ConvertToByte":   "sets the encoding-time discriminator derived from the content right before gob encoding; it is recomputed at every encode",
+	"LoadFromByte":    "fills the model while the record is being loaded from the file; nothing to write back",
+	"BodySetKey":      "names a record that is being created; its first Save takes the 'new record' path, which queues it unconditionally",
+	"BodySetFileName": "legacy (V1) storage location, assigned by the chronicler while it writes the record",
+	"Uint32SliceDelete": "the only path without a flag is the one on which every element was removed; the single production caller (gateway Uint32SliceDelete) then deletes the whole record, which is persisted as a delete (latent at the record API: noted in DESIGN.md 9.2b)",
+}
+
+func isPtrToStruct(t types.Type, st *types.Struct) bool {
+	pt, ok := t.(*types.Pointer)
+	if !ok {
+		return false
+	}
+	return pt.Elem().Underlying() == types.Type(st)
+}
+
+// isEmptyAlloc: &T{} without elements, new(T), or make(T, 0...).
+func isEmptyAlloc(info *types.Info, e ast.Expr) bool {
+	e = core.Unparen(e)
+	if u, ok := e.(*ast.UnaryExpr); ok && u.Op == token.AND {
+		if cl, ok := core.Unparen(u.X).(*ast.CompositeLit); ok {
+			return len(cl.Elts) == 0
+		}
+	}
+	if call, ok := e.(*ast.CallExpr); ok {
+		if isBuiltinCall(info, call, "new") {
+			return true
+		}
+		if isBuiltinCall(info, call, "make") && (len(call.Args) == 1 || isConst(info, call.Args[1], 0)) {
+			return true
+		}
+	}
+	return false
+}
+
+// dirtyFlagRule (C05.dirtyflag; C30.persist with onlyField = the expiry attribute): every change of a persisted
+// attribute sets a change flag SaveFunction tests.
+func dirtyFlagRule(c *core.Ctx, rDF *core.Rule, onlyField string) {
+	p := c.P
 	{
 		sf := c.Fn(pkgSwamp + ".swamp.SaveFunction")
 		sinfo := sf.Info()
@@ -502,6 +591,22 @@ func c05(c *core.Ctx) {
 					}
 					return true
 				})
+				if onlyField != "" {
+					touches := false
+					for _, w := range writes {
+						ast.Inspect(w, func(y ast.Node) bool {
+							if sel, isSel := y.(*ast.SelectorExpr); isSel && sel.Sel.Name == onlyField {
+								if fld := core.FieldOf(info, sel); fld != nil {
+									touches = true
+								}
+							}
+							return true
+						})
+					}
+					if !touches {
+						continue
+					}
+				}
 				if len(writes) == 0 {
 					continue
 				}
@@ -550,86 +655,4 @@ func c05(c *core.Ctx) {
 			}
 		}
 	}
-
-	rU := c.Rule("C05.units", "created/updated/expiry are stored as UnixNano by their setters and leave the gateway through time.Unix(0, x)", 5)
-	for _, k := range []string{"SetCreatedAt", "SetModifiedAt", "SetExpirationTime"} {
-		f := c.Fn(pkgTreasure + ".treasure." + k)
-		ok := false
-		core.Calls(f.Decl.Body, false, func(call *ast.CallExpr) {
-			if core.IsCallTo(f.Info(), call, "time.Time.UnixNano") {
-				ok = true
-			}
-		})
-		rU.Check(ok, f.Key, f.Decl.Pos(), "UnixNano", k+" does not store nanoseconds")
-	}
-	unitRule(c, rU, func(info *types.Info, body ast.Node, e ast.Expr) bool {
-		if call, ok := stripConv(info, e).(*ast.CallExpr); ok {
-			if f := core.Callee(info, call); f != nil {
-				switch f.Name() {
-				case "GetCreatedAt", "GetModifiedAt", "GetExpirationTime", "GetDeletedAt":
-					return f.Pkg() != nil && core.Short(f.Pkg().Path()) == pkgTreasure
-				}
-			}
-		}
-		return false
-	}, "metadata time")
-}
-
-// hasReturn reports whether the body contains a return statement outside function literals.
-func hasReturn(body *ast.BlockStmt) bool {
-	found := false
-	ast.Inspect(body, func(x ast.Node) bool {
-		switch x.(type) {
-		case *ast.FuncLit:
-			return false
-		case *ast.ReturnStmt:
-			found = true
-		}
-		return true
-	})
-	return found
-}
-
-// reachesFlag: for bodies that fall off their end, whether some flag-setting node follows loc on every
-// path is approximated by: a flag-setting node is reachable and no return exists (straight-line setter).
-func reachesFlag(fl *core.Flow, loc core.Loc, pred func(ast.Node) bool) bool {
-	r, _ := fl.CanReach(loc, nil, nil, pred)
-	return r
-}
-
-// dirtyFlagExempt: record methods that assign fields of the persisted model without changing an
-// attribute a client set (one named method each, with the reason).
-var dirtyFlagExempt = map[string]string{
-	"ConvertToByte":   "sets the encoding-time discriminator derived from the content right before gob encoding; it is recomputed at every encode",
-	"LoadFromByte":    "fills the model while the record is being loaded from the file; nothing to write back",
-	"BodySetKey":      "names a record that is being created; its first Save takes the 'new record' path, which queues it unconditionally",
-	"BodySetFileName": "legacy (V1) storage location, assigned by the chronicler while it writes the record",
-	"Uint32SliceDelete": "the only path without a flag is the one on which every element was removed; the single production caller (gateway Uint32SliceDelete) then deletes the whole record, which is persisted as a delete (latent at the record API: noted in DESIGN.md 9.2b)",
-}
-
-func isPtrToStruct(t types.Type, st *types.Struct) bool {
-	pt, ok := t.(*types.Pointer)
-	if !ok {
-		return false
-	}
-	return pt.Elem().Underlying() == types.Type(st)
-}
-
-// isEmptyAlloc: &T{} without elements, new(T), or make(T, 0...).
-func isEmptyAlloc(info *types.Info, e ast.Expr) bool {
-	e = core.Unparen(e)
-	if u, ok := e.(*ast.UnaryExpr); ok && u.Op == token.AND {
-		if cl, ok := core.Unparen(u.X).(*ast.CompositeLit); ok {
-			return len(cl.Elts) == 0
-		}
-	}
-	if call, ok := e.(*ast.CallExpr); ok {
-		if isBuiltinCall(info, call, "new") {
-			return true
-		}
-		if isBuiltinCall(info, call, "make") && (len(call.Args) == 1 || isConst(info, call.Args[1], 0)) {
-			return true
-		}
-	}
-	return false
 }
